@@ -92,7 +92,9 @@ def run_tlc(module_path, cfg_text, workdir, workers=1, simulate=None, depth=None
     meta = os.path.join(workdir, "meta")
     shutil.rmtree(meta, ignore_errors=True)
     libpath = os.pathsep.join(_lib_dirs())
-    cmd = ["java", "-XX:+UseParallelGC", "-Xmx" + heap, "-Xss16m",
+    jtmp = os.path.join(workdir, "jtmp")        # TLC creates /tmp/tlc-* scratch directories: keep them in the work directory
+    os.makedirs(jtmp, exist_ok=True)
+    cmd = ["java", "-XX:+UseParallelGC", "-Xmx" + heap, "-Xss16m", "-Djava.io.tmpdir=" + jtmp,
            "-DTLA-Library=" + libpath, "-cp", TLA_CP, "tlc2.TLC",
            "-workers", str(workers), "-metadir", meta, "-noGenerateSpecTE",
            "-config", cfg_path]
@@ -118,6 +120,7 @@ def run_tlc(module_path, cfg_text, workdir, workers=1, simulate=None, depth=None
         raise MachineryFailure("TLC timed out after %ss on %s" % (timeout, mod))
     finally:
         shutil.rmtree(meta, ignore_errors=True)
+        shutil.rmtree(jtmp, ignore_errors=True)
     res = TLCResult()
     res.wall = time.time() - t0
     out = p.stdout.decode("utf-8", "replace")
